@@ -20,6 +20,10 @@ struct Obj {
   void inc() { ++v; }
 };
 
+// a derived class whose mutating interface lives in a registered base class (base_class<PBase, PDer>)
+struct PBase { int pv; explicit PBase(int t = 0) : pv(t) {} void pset(int x) { pv = x; } int pget() const { return pv; } };
+struct PDer : PBase { explicit PDer(int t = 0) : PBase(t) {} };
+
 using Vec = std::vector<Boxed_Value>;
 using Map = std::map<std::string, Boxed_Value>;
 
@@ -44,6 +48,8 @@ struct World {
   int ri = 51; std::string rs = "rs"; Vec rv{var(1), var(2)}; Obj ro{61}; Obj po{62};
   std::shared_ptr<const Obj> spo = std::make_shared<Obj>(63);
   int reti = 71; std::string rets = "rets"; Obj reto{72}; Vec retv{var(5), var(6)};
+  PDer dr{81}; PDer dp{82}; PDer dret{83}; std::shared_ptr<const PDer> dsp = std::make_shared<PDer>(84);
+  Boxed_Value gcder = const_var(PDer(85));
   // values handed to the engine (kept here so that we can look at them afterwards)
   Boxed_Value gci = const_var(41), gcd = const_var(2.5), gcb = const_var(true), gcs = const_var(std::string("gs")),
               gcv = const_var(Vec{var(1), var(2), var(3)}), gcm = const_var(Map{{"a", var(1)}}), gco = const_var(Obj(7)),
@@ -54,6 +60,8 @@ struct World {
     o += "gci=" + show(gci) + " gcd=" + show(gcd) + " gcb=" + show(gcb) + " gcs=" + show(gcs) + " gcv=" + show(gcv) + " gcm=" + show(gcm) + " gco=" + show(gco);
     o += " cvi=" + show(cvi) + " cvs=" + show(cvs) + " cvv=" + show(cvv) + " cvo=" + show(cvo);
     o += " cri=" + std::to_string(ri) + " crs='" + rs + "' crv=" + show(const_var(rv)) + " cro=O" + std::to_string(ro.v) + " cpo=O" + std::to_string(po.v) + " spo=O" + std::to_string(spo->v);
+    o += " cdr=D" + std::to_string(dr.pv) + " cdp=D" + std::to_string(dp.pv) + " dret=D" + std::to_string(dret.pv) + " dsp=D" + std::to_string(dsp->pv)
+         + " gcder=D" + std::to_string(boxed_cast<const PDer &>(gcder).pv);
     o += " reti=" + std::to_string(reti) + " rets='" + rets + "' reto=O" + std::to_string(reto.v) + " retv=" + show(const_var(retv));
     return o;
   }
@@ -79,6 +87,17 @@ int main() {
       chai.add(fun(&Obj::inc), "inc");
       chai.add(fun(&Obj::v), "v");
       chai.add(fun([](const Obj &o) { return "O" + std::to_string(o.v); }), "to_string");
+      chai.add(user_type<PBase>(), "PBase"); chai.add(user_type<PDer>(), "PDer");
+      chai.add(base_class<PBase, PDer>());
+      chai.add(constructor<PDer(int)>(), "PDer");
+      chai.add(constructor<PDer(const PDer &)>(), "PDer");
+      chai.add(fun(&PBase::pset), "pset"); chai.add(fun(&PBase::pget), "pget"); chai.add(fun(&PBase::pv), "pv");
+      chai.add(fun([](PBase &x) { g_log += "mut_pb,"; x.pv = 999; }), "mut_pb");
+      chai.add(fun([](PBase *x) { g_log += "mut_pbp,"; x->pv = 999; }), "mut_pbp");
+      chai.add(fun([](PDer &x) { g_log += "mut_pd,"; x.pv = 999; }), "mut_pd");
+      chai.add(var(std::cref(W.dr)), "cdr"); chai.add(var(static_cast<const PDer *>(&W.dp)), "cdp"); chai.add(var(W.dsp), "dsp");
+      chai.add_global_const(W.gcder, "gcder");
+      chai.add(fun([&W]() -> const PDer & { return W.dret; }), "ret_cder");
       chai.add_global_const(W.gci, "gci"); chai.add_global_const(W.gcd, "gcd"); chai.add_global_const(W.gcb, "gcb"); chai.add_global_const(W.gcs, "gcs");
       chai.add_global_const(W.gcv, "gcv"); chai.add_global_const(W.gcm, "gcm"); chai.add_global_const(W.gco, "gco");
       chai.add(W.cvi, "cvi"); chai.add(W.cvs, "cvs"); chai.add(W.cvv, "cvv"); chai.add(W.cvo, "cvo");
